@@ -27,6 +27,9 @@ static void setup_fs(SimFS &fs, const Plan &p, Rng *clockrng) {
 	fs.add_dir("/w", 0755, fs.euid, fs.egid, 1000000000);
 	for (size_t t = 0; t < std::max<size_t>(1, p.tasks.size()); ++t)
 		fs.add_dir("/w/t" + std::to_string(t), 0755, fs.euid, fs.egid, 1000000000);
+	// a reader that opens its archive by name (C15): one file per reader, served by that reader's own source
+	for (size_t t = 0; t < p.tasks.size(); ++t)
+		if (p.tasks[t].kind == "BY_NAME" && p.property == "C15") fs.add_file("/w/arc" + std::to_string(t) + ".lzh", 0644, 0, 0, 1000000000, Bytes());
 	for (auto &e : p.fs) {
 		if (e.type == 'd') fs.add_dir(e.path, e.mode, e.uid, e.gid, e.mtime);
 		else if (e.type == 'f') fs.add_file(e.path, e.mode, e.uid, e.gid, e.mtime, e.data);
@@ -259,6 +262,7 @@ struct C15 : Scenario {
 		for (size_t k = 0; k < nt; ++k) {
 			Task t;
 			set_kind(t, KINDS6[rng.below(6)]);
+			if (rng.chance(1, 7)) set_kind(t, "BY_NAME");   // lha_input_stream_from(path): the library opens (and buffers) the file itself
 			t.policy = (int) rng.below(3);
 			t.dir = "/w/t" + std::to_string(k);
 			gen_history(rng, t, p.members.size(), true, 40);
@@ -317,8 +321,14 @@ struct C15 : Scenario {
 		DriveOpts o;
 		o.budget = ~0ULL;
 		g_sim.budget = g_sim.steps + budget * (p.tasks.size() + 1) + 100000;
+		auto drive_k = [&](size_t k) {
+			Task tk = p.tasks[k];
+			DriveOpts ok = o;
+			if (tk.kind == "BY_NAME") { tk.kind = "FILE_SEEK"; ok.by_name = true; ok.by_name_path = "/w/arc" + std::to_string(k) + ".lzh"; }
+			return drive_reader(tk, a.bytes, ok);
+		};
 		if (p.tasks.size() == 1) {
-			outs[0] = drive_reader(p.tasks[0], a.bytes, o);
+			outs[0] = drive_k(0);
 		} else {
 			Rng srng((uint64_t) p.geti("sched_seed"), 77, 0);
 			int bias = (int) p.geti("bias", 1);
@@ -339,7 +349,7 @@ struct C15 : Scenario {
 			};
 			std::vector<std::function<void()>> bodies;
 			for (size_t k = 0; k < p.tasks.size(); ++k)
-				bodies.push_back([&, k]() { outs[k] = drive_reader(p.tasks[k], a.bytes, o); });
+				bodies.push_back([&, k]() { outs[k] = drive_k(k); });
 			g_baton.run(bodies, decide);
 			count("probe.task_switches", g_baton.switches);
 			count("kind.multi_reader");
@@ -360,7 +370,7 @@ struct C15 : Scenario {
 			for (size_t k = 0; k < p.tasks.size() && res.ok; ++k) {
 				int err;
 				fs2.sys_chdir("/w/t0", err);
-				DriveOut d2 = drive_reader(p.tasks[k], a.bytes, o);
+				DriveOut d2 = drive_k(k);
 				if (d2.budget || outs[k].budget) break;
 				const DriveOut &d1 = outs[k];
 				size_t n = std::min(d1.obs.size(), d2.obs.size());
